@@ -11,6 +11,8 @@ import (
 	"github.com/jcmturner/gokrb5/v8/crypto"
 	"github.com/jcmturner/gokrb5/v8/crypto/rfc3961"
 	"github.com/jcmturner/gokrb5/v8/crypto/rfc8009"
+	"github.com/jcmturner/gokrb5/v8/kadmin"
+	"github.com/jcmturner/gokrb5/v8/messages"
 	"github.com/jcmturner/gokrb5/v8/types"
 
 	"verif/props/pcommon"
@@ -28,7 +30,7 @@ func TestProp(t *testing.T) {
 	}
 	r.SetRule("differential against ref/kcrypto: string-to-key (etype x password classes empty/ASCII/Latin-1/BMP/combining/supplementary/long x salts x iteration counts; thorough: plus 30 seeded passwords and 10 seeded salts over all Unicode planes), malformed parameters, " +
 		"n-fold (every input length 1..64 x outputs 64/128/168/192/256 bits x 3 contents), DK/DR (constants of every length 1..16 for 17/18, 1..8 for 16; usage labels for 19/20), " +
-		"des3 random-to-key incl. crafted weak/semi-weak groups, PA-data precedence (every permutation of every subset of INFO2/INFO/PW-SALT), generated keys per etype. " +
+		"des3 random-to-key incl. crafted weak/semi-weak groups, PA-data precedence (every permutation of every subset of INFO2/INFO/PW-SALT, hints naming other etypes; client logins against a simulated KDC that sends both hints in either order with non-default salt and iteration count), generated keys per etype incl. the kpasswd request subkey. " +
 		"distinct = case key; non-trivial = all (each compares a computed value)")
 	r.Assume("reference ref/kcrypto self-tested against RFC 3961 A.1/A.3/A.4, RFC 3962 B, RFC 8009 A vectors")
 	r.Note("not exercised: PBKDF2 iteration parameter 0 (= 2^32 iterations, not computable); des3 with empty password and empty salt (n-fold of nothing undefined)")
@@ -41,6 +43,7 @@ func TestProp(t *testing.T) {
 	dkTasks(r, add)
 	r2kTasks(r, add)
 	padataTasks(r, add)
+	loginTasks(r, add)
 	genkeyTasks(r, add)
 	vh.Workers(len(tasks), func(i int) { tasks[i]() })
 	r.Exhaustive("n-fold input lengths 1..64 x 5 output sizes; PA-data ordered subsets")
@@ -49,6 +52,7 @@ func TestProp(t *testing.T) {
 	r.Require("dk_equal", 300)
 	r.Require("r2k_equal", 100)
 	r.Require("padata_key_equal", 60)
+	r.Require("login_preauth_key_as_selected_by_hints", 40)
 	r.Require("generated_key_usable", 600)
 	r.Require("malformed_params_rejected", 10)
 }
@@ -641,8 +645,18 @@ func genkeyTasks(r *vh.Run, add func(func())) {
 					return
 				}
 				keys = append(keys, a.SubKey)
+				// the generators inside the library that choose the size themselves: the kpasswd request's subkey and the
+				// session key of a ticket the library mints
+				sk, _ := types.GenerateEncryptionKey(e)
+				if _, k3, err := kadmin.ChangePasswdMsg(types.PrincipalName{NameType: 1, NameString: []string{"alice"}}, "TEST.GOKRB5", "new-pässword", messages.Ticket{TktVNO: 5, Realm: "TEST.GOKRB5",
+					SName: types.PrincipalName{NameType: 2, NameString: []string{"kadmin", "changepw"}}, EncPart: types.EncryptedData{EType: et, KVNO: 1, Cipher: []byte{1, 2, 3}}}, sk); err != nil {
+					r.Violation(fmt.Sprintf("C08|subkey|error|etype=%d|kpasswd", et), "kadmin.ChangePasswdMsg: "+err.Error(), map[string]any{"case": ck})
+					return
+				} else {
+					keys = append(keys, k3)
+				}
 				for j, k := range keys {
-					src := []string{"GenerateEncryptionKey", "GenerateSeqNumberAndSubKey(et,GetKeyByteSize)"}[j]
+					src := []string{"GenerateEncryptionKey", "GenerateSeqNumberAndSubKey(et,GetKeyByteSize)", "kadmin.ChangePasswdMsg (subkey of the request)"}[j]
 					d := map[string]any{"case": ck, "etype": et, "source": src, "key_len": len(k.KeyValue), "required_len": kcrypto.KeyLen(et)}
 					if k.KeyType != et || len(k.KeyValue) != kcrypto.KeyLen(et) {
 						r.Violation(fmt.Sprintf("C08|genkey|length|etype=%d|%d", et, j), fmt.Sprintf("%s produced a %d-byte key for etype %d which requires %d", src, len(k.KeyValue), et, kcrypto.KeyLen(et)), d)
